@@ -517,7 +517,7 @@ func (w *ctlWorld) judge(ev.TB, *Scenario) {
 	ev.LabelN("controller-job-fired", hit)
 	ev.LabelN("controller-job-absent", miss)
 }
-func (w *ctlWorld) close()                 { w.cancel() }
+func (w *ctlWorld) close() { w.cancel() }
 
 func init() {
 	rep := func(lo, hi int, one func(t *rapid.T) Op) func(t *rapid.T, p map[string]uint64, inst, n int) []Op {
